@@ -226,3 +226,11 @@ class VerifRaiseAtSource(DataSource):
     @classmethod
     def output_data_type(cls):
         return FloatDataType
+
+
+# ---- an element with several required and several optional parameters (identity of sweeps that leave them unbound) ----
+class VerifManyParamOperation(FloatOperation):
+    """data * alpha + beta + gamma + delta (+ optional eps, zeta, eta)."""
+
+    def _process_logic(self, data, alpha, beta, gamma, delta, eps=0.0, zeta=0.0, eta=0.0):
+        return FloatDataType(data.data * alpha + beta + gamma + delta + eps + zeta + eta)
